@@ -172,6 +172,19 @@ func generate(w *World, prop string) *checkRun {
 	if prop == "C20" {
 		run.obls = append(run.obls, w.ownershipObligations()...)
 	}
+	if prop == "C13" || prop == "C04" {
+		// "the status / result of THIS transfer": the delivery goroutines touch the transfer-scoped fields of
+		// Conn only through the values captured at start (ownership obligations shared with C20)
+		fields := map[string][]string{"C13": {"own:Conn.bdatStatus", "own:Conn.recipients"}, "C04": {"own:Conn.dataResult"}}[prop]
+		for _, o := range w.ownershipObligations() {
+			for _, f := range fields {
+				if strings.Contains(o.Name, "/"+f+"#") {
+					o.Props = []string{prop, "C20"}
+					run.obls = append(run.obls, o)
+				}
+			}
+		}
+	}
 	if prop == "C08" {
 		// "logged out exactly once" under concurrent Close: the critical-section obligations of the Logout call sites
 		for _, o := range w.ownershipObligations() {
